@@ -4245,6 +4245,14 @@ func (l *Lowerer) lowerAssign(assign *parser.AssignStmt, target *[]ir.Statement)
 		// Must happen BEFORE Splat to match Rust expression ordering:
 		// concretize → Load → Splat → Binary
 		loaded := l.applyLoadRule(pointer)
+		if loaded == pointer && l.isPointerExpressionInLowerer(pointer) {
+			// `*p += v` where p is a pointer-typed function argument: the load
+			// rule leaves pointer values alone, but the compound assignment
+			// reads through the pointer.
+			loaded = l.addExpression(ir.Expression{
+				Kind: ir.ExprLoad{Pointer: pointer},
+			})
+		}
 		// Splat scalar RHS to match vector LHS (e.g., a += 1.0 where a: vec2<f32>).
 		value = l.splatScalarToMatchPointer(pointer, value)
 		value = l.addExpression(ir.Expression{
